@@ -430,6 +430,8 @@ impl RenderTableRow {
         let mut result = Vec::new();
         let mut colno = 0;
         let col_sizes = self.col_sizes.unwrap();
+        // Fragment markers from cells which are not drawn
+        let mut pending_frags: Vec<RenderNode> = Vec::new();
         for mut cell in self.cells {
             let colspan = cell.colspan;
             let col_width = if vertical {
@@ -439,6 +441,10 @@ impl RenderTableRow {
             };
             // Skip any zero-width columns
             if col_width > 0 {
+                if !pending_frags.is_empty() {
+                    pending_frags.append(&mut cell.content);
+                    cell.content = std::mem::take(&mut pending_frags);
+                }
                 // Side by side, the cell also covers the separators between
                 // the columns it spans; stacked cells get the full width.
                 cell.col_width = Some(if vertical {
@@ -451,6 +457,14 @@ impl RenderTableRow {
                     RenderNodeInfo::TableCell(cell),
                     style,
                 ));
+            } else {
+                // The cell isn't drawn, but it may carry the fragment marker
+                // of its row or table: hand those to the next cell.
+                pending_frags.extend(
+                    cell.content
+                        .drain(..)
+                        .filter(|n| matches!(n.info, RenderNodeInfo::FragStart(_))),
+                );
             }
             colno += colspan;
         }
